@@ -28,6 +28,7 @@ class Harness:
         self.expect_panic = None
         self.doc = ""
         self.unwind = None
+        self.weight = 1
 
     def path(self, modpath):
         return modpath + "::" + self.fn
@@ -44,7 +45,7 @@ def parse_file(path):
     last_doc = [""]
 
     def reset():
-        pending.update({"props": None, "tier": None, "timeout": None, "encodes": [], "bounds": "", "expect": None, "doc": []})
+        pending.update({"props": None, "tier": None, "timeout": None, "encodes": [], "bounds": "", "expect": None, "doc": [], "weight": None})
     for i, ln in enumerate(lines):
         t = ln.strip()
         if t.startswith("// @file-encodes"):
@@ -60,6 +61,8 @@ def parse_file(path):
                     pending["tier"] = v
                 elif k == "timeout":
                     pending["timeout"] = int(v)
+                elif k == "weight":
+                    pending["weight"] = int(v)
         elif t.startswith("// @encodes"):
             pending["encodes"].append(t[len("// @encodes"):].strip())
         elif t.startswith("// @bounds"):
@@ -94,6 +97,7 @@ def parse_file(path):
                 h.expect_panic = pending["expect"]
                 h.doc = " ".join(pending["doc"])
                 h.unwind = pending.get("unwind")
+                h.weight = pending.get("weight") or 1
                 out.append(h)
             reset()
         elif re.match(r"\w+!\((\w+)\s*,", t) and pending["props"] is not None:
@@ -109,6 +113,7 @@ def parse_file(path):
             h.expect_panic = pending["expect"]
             h.doc = " ".join(pending["doc"]) or last_doc[0]
             last_doc[0] = h.doc
+            h.weight = pending.get("weight") or 1
             out.append(h)
             reset()
         elif t == "" or t.startswith("#["):
